@@ -97,35 +97,60 @@ Proof.
   - injection H as -> H. f_equal. eapply IH; exact H.
 Qed.
 
+(* what a list of alternatives matches *)
+Lemma lang_fold_alt : forall l r0 b e s,
+  lang (fold_left Alt l r0) b e s <-> lang r0 b e s \/ exists r, In r l /\ lang r b e s.
+Proof.
+  induction l as [|x l IH]; intros r0 b e s; cbn [fold_left].
+  - split; [auto | intros [H | (r & [] & _)]; exact H].
+  - rewrite IH. cbn [lang]. split.
+    + intros [[H | H] | (r & Hin & H)]; [left; exact H | right; exists x; cbn; auto | right; exists r; cbn; auto].
+    + intros [H | (r & [<- | Hin] & H)]; [left; left; exact H | left; right; exact H | right; exists r; auto].
+Qed.
+
+Lemma lang_alts : forall l b e s, lang (alts l) b e s <-> exists r, In r l /\ lang r b e s.
+Proof.
+  intros [|r0 l] b e s; cbn [alts].
+  - cbn. split; [tauto | intros (r & [] & _)].
+  - rewrite lang_fold_alt. split.
+    + intros [H | (r & Hin & H)]; [exists r0; cbn; auto | exists r; cbn; auto].
+    + intros (r & [<- | Hin] & H); [left; exact H | right; exists r; auto].
+Qed.
+
 (* ---------------------------------------------------------------------------------------------
-   Patterns of specifiers without top-level alternation. *)
+   Patterns. *)
 Section Match.
   Variable parse : string -> option (list re).
 
-  (* the oracle finds one alternative in the text: no top-level `|` *)
-  Definition single_alt (t : string) : Prop := forall l, parse t = Some l -> exists r, l = [r].
+  (* soundness of the oracle with respect to the character test the code uses: a text without
+     any `|` has no top-level alternation *)
+  Definition bar_sound (t : string) : Prop :=
+    has_bar t = false -> forall l, parse t = Some l -> exists r, l = [r].
 
-  Lemma filter_map_In' : forall (A B : Type) (f : A -> option B) l y,
-    In y (filter_map f l) <-> exists x, In x l /\ f x = Some y.
-  Proof. exact filter_map_In. Qed.
+  Lemma group_alts : forall t l, bar_sound t -> parse t = Some l -> group t l = [alts l].
+  Proof.
+    intros t l Hs Hp. unfold group. destruct (has_bar t) eqn:E; [reflexivity|].
+    destruct (Hs E l Hp) as [r ->]. reflexivity.
+  Qed.
 
   (* ---- dirk ---- *)
-  Definition dirk_simple (path : string) : Prop :=
-    forall p0 p1, dirk_parts path = Some (p0, p1) -> single_alt p0 /\ single_alt p1.
+  Definition dirk_sound (path : string) : Prop :=
+    forall p0 p1, dirk_parts path = Some (p0, p1) -> bar_sound p0 /\ bar_sound p1.
 
-  (* the declarative reading: the specifier is about this wallet, and the whole name matches *)
+  (* the declarative reading: the specifier is about this wallet, and the whole name matches
+     (wallet part)/(account part), each part with its alternatives grouped *)
   Definition dirk_covers (path : string) (a : account) : Prop :=
-    exists p0 p1 rw ra,
+    exists p0 p1 ws accs,
       dirk_parts path = Some (p0, p1) /\ p0 = a_wallet a /\
-      parse p0 = Some [rw] /\ parse p1 = Some [ra] /\
-      full_lang (Seq rw (Seq slash ra)) (codes (full_name a)).
+      parse p0 = Some ws /\ parse p1 = Some accs /\
+      full_lang (Seq (alts ws) (Seq slash (alts accs))) (codes (full_name a)).
 
   Lemma dirk_pattern_some : forall path p,
     dirk_pattern parse path = Some p ->
     exists p0 p1 ws accs,
       dirk_parts path = Some (p0, p1) /\ parse p0 = Some ws /\ parse p1 = Some accs /\
-      p = {| p_key := p0; p_text := ("^" ++ p0 ++ "/" ++ p1 ++ "$")%string;
-             p_re := textual_concat [[Bol]; ws; [slash]; accs; [Eol]] |}.
+      p = {| p_key := p0; p_text := ("^" ++ group_text p0 ++ "/" ++ group_text p1 ++ "$")%string;
+             p_re := textual_concat [[Bol]; group p0 ws; [slash]; group p1 accs; [Eol]] |}.
   Proof.
     intros path p H. unfold dirk_pattern in H.
     destruct (dirk_parts path) as [[p0 p1]|]; [|discriminate].
@@ -135,22 +160,24 @@ Section Match.
   Qed.
 
   Lemma dirk_pattern_matches : forall path p a,
-    dirk_simple path -> dirk_pattern parse path = Some p ->
+    dirk_sound path -> dirk_pattern parse path = Some p ->
     (String.eqb (p_key p) (a_wallet a) && pattern_matches a p = true <-> dirk_covers path a).
   Proof.
     intros path p a Hs Hp. destruct (dirk_pattern_some _ _ Hp) as (p0 & p1 & ws & accs & Hparts & E0 & E1 & ->).
-    destruct (Hs _ _ Hparts) as [H0 H1]. destruct (H0 _ E0) as [rw ->]. destruct (H1 _ E1) as [ra ->].
+    destruct (Hs _ _ Hparts) as [H0 H1].
     cbn [p_key p_re]. unfold pattern_matches; cbn [p_re].
-    change (textual_concat [[Bol]; [rw]; [slash]; [ra]; [Eol]]) with (Seq Bol (Seq rw (Seq slash (Seq ra Eol)))).
+    rewrite (group_alts _ _ H0 E0), (group_alts _ _ H1 E1).
+    change (textual_concat [[Bol]; [alts ws]; [slash]; [alts accs]; [Eol]])
+      with (Seq Bol (Seq (alts ws) (Seq slash (Seq (alts accs) Eol)))).
     rewrite andb_true_iff, String.eqb_eq, search_spec, anchored_parts_full. split.
-    - intros [Hk Hm]. exists p0, p1, rw, ra. auto.
-    - intros (q0 & q1 & rw' & ra' & Hq & Hk & F0 & F1 & Hm). rewrite Hparts in Hq. injection Hq as <- <-.
+    - intros [Hk Hm]. exists p0, p1, ws, accs. auto.
+    - intros (q0 & q1 & ws' & accs' & Hq & Hk & F0 & F1 & Hm). rewrite Hparts in Hq. injection Hq as <- <-.
       rewrite E0 in F0. rewrite E1 in F1. injection F0 as <-. injection F1 as <-. auto.
   Qed.
 
   Lemma dirk_pattern_total : forall path a, dirk_covers path a -> exists p, dirk_pattern parse path = Some p.
   Proof.
-    intros path a (p0 & p1 & rw & ra & Hparts & _ & E0 & E1 & _). unfold dirk_pattern.
+    intros path a (p0 & p1 & ws & accs & Hparts & _ & E0 & E1 & _). unfold dirk_pattern.
     rewrite Hparts, E0, E1. eauto.
   Qed.
 
@@ -170,7 +197,7 @@ Section Match.
   Proof. reflexivity. Qed.
 
   Lemma dirk_regex_branch_spec : forall paths a,
-    (forall path, In path paths -> dirk_simple path) ->
+    (forall path, In path paths -> dirk_sound path) ->
     (dirk_regex_branch paths a = true <-> exists path, In path paths /\ dirk_covers path a).
   Proof.
     intros paths a Hs. unfold dirk_regex_branch. rewrite existsb_exists. split.
@@ -185,14 +212,15 @@ Section Match.
   Qed.
 
   (* the short circuit fires only for a wallet named by exactly one compiled specifier, whose
-     account part is .* *)
+     account part is .* (wallet names without `|`) *)
   Lemma dirk_short_circuit_spec : forall paths a,
+    has_bar (a_wallet a) = false ->
     dirk_short_circuit paths a = true ->
     exists path p1, In path paths /\ dirk_parts path = Some (a_wallet a, p1) /\ p1 = ".*"%string /\
                     exists p, dirk_pattern parse path = Some p /\
                               filter (fun p => String.eqb (p_key p) (a_wallet a)) (dirk_patterns parse paths) = [p].
   Proof.
-    intros paths a H. unfold dirk_short_circuit in H.
+    intros paths a Hbar H. unfold dirk_short_circuit in H.
     destruct (filter _ (dirk_patterns parse paths)) as [|p [|p' l]] eqn:Ef; try discriminate.
     assert (Hin : In p (filter (fun p => String.eqb (p_key p) (a_wallet a)) (dirk_patterns parse paths)))
       by (rewrite Ef; left; reflexivity).
@@ -201,10 +229,12 @@ Section Match.
     destruct (dirk_pattern_some _ _ Hp) as (p0 & p1 & ws & accs & Hparts & E0 & E1 & ->).
     cbn [p_key p_text] in *. subst p0. apply String.eqb_eq in H.
     exists path, p1. split; [assumption|]. split; [assumption|]. split.
-    - apply append_inj_l in H. apply append_inj_l in H.
-      change ("/" ++ p1 ++ "$")%string with (String "/" (p1 ++ "$"))%string in H.
+    - unfold group_text in H at 1. rewrite Hbar in H.
+      apply append_inj_l in H. apply append_inj_l in H.
+      change ("/" ++ group_text p1 ++ "$")%string with (String "/" (group_text p1 ++ "$"))%string in H.
       change ("/.*$")%string with (String "/" (".*" ++ "$"))%string in H.
-      injection H as H. apply (append_one_inj_r p1 ".*"%string "$"%char). exact H.
+      injection H as H. apply (append_one_inj_r (group_text p1) ".*"%string "$"%char) in H.
+      unfold group_text in H. destruct (has_bar p1); [discriminate | exact H].
     - eexists; split; [exact Hp | reflexivity].
   Qed.
 
@@ -228,14 +258,16 @@ Section Match.
   Qed.
 
   Lemma dirk_short_circuit_sound : forall paths a,
+    has_bar (a_wallet a) = false ->
     parse (a_wallet a) = Some [lit (a_wallet a)] ->
     parse ".*"%string = Some [Star (Cls dot_ranges)] ->
     Forall (fun c => in_cls c dot_ranges = true) (codes (a_name a)) ->
     dirk_short_circuit paths a = true ->
     exists path, In path paths /\ dirk_covers path a.
   Proof.
-    intros paths a Hw Hdot Hname H. apply dirk_short_circuit_spec in H as (path & p1 & Hpath & Hparts & -> & _).
-    exists path. split; [assumption|]. exists (a_wallet a), ".*"%string, (lit (a_wallet a)), (Star (Cls dot_ranges)).
+    intros paths a Hbar Hw Hdot Hname H.
+    apply dirk_short_circuit_spec in H as (path & p1 & Hpath & Hparts & -> & _); [|assumption].
+    exists path. split; [assumption|]. exists (a_wallet a), ".*"%string, [lit (a_wallet a)], [Star (Cls dot_ranges)].
     repeat (split; [assumption || reflexivity|]).
     apply full_parts_split. exists (codes (a_wallet a)), (codes (a_name a)). split.
     - unfold full_name. rewrite codes_app. reflexivity.
@@ -243,46 +275,42 @@ Section Match.
   Qed.
 
   (* ---- wallet ---- *)
-  Definition wallet_simple (path : string) : Prop :=
-    forall p0 p1, wallet_parts path = Some (p0, p1) ->
-      single_alt p0 /\ single_alt p1 /\
-      (has_end_anchor p1 = true -> forall ra, parse p1 = Some [ra] -> ends_anchored ra).
+  Definition wallet_sound (path : string) : Prop :=
+    forall p0 p1, wallet_parts path = Some (p0, p1) -> bar_sound p0 /\ bar_sound p1.
 
   Definition wallet_covers (path : string) (a : account) : Prop :=
-    exists p0 p1 rw ra,
+    exists p0 p1 ws accs,
       wallet_parts path = Some (p0, p1) /\
-      parse p0 = Some [rw] /\ parse p1 = Some [ra] /\
-      full_lang (Seq rw (Seq slash ra)) (codes (full_name a)).
+      parse p0 = Some ws /\ parse p1 = Some accs /\
+      full_lang (Seq (alts ws) (Seq slash (alts accs))) (codes (full_name a)).
 
   Lemma wallet_pattern_matches : forall path p a,
-    wallet_simple path -> wallet_pattern parse path = Some p ->
+    wallet_sound path -> wallet_pattern parse path = Some p ->
     (pattern_matches a p = true <-> wallet_covers path a).
   Proof.
     intros path p a Hs Hp. unfold wallet_pattern in Hp.
     destruct (wallet_parts path) as [[p0 p1]|] eqn:Hparts; [|discriminate].
     destruct (parse p0) as [ws|] eqn:E0; [|discriminate].
     destruct (parse p1) as [accs|] eqn:E1; [|discriminate].
-    destruct (Hs _ _ Hparts) as (H0 & H1 & Hd). destruct (H0 _ E0) as [rw ->]. destruct (H1 _ E1) as [ra ->].
-    assert (Hm : pattern_matches a p = true <-> full_lang (Seq rw (Seq slash ra)) (codes (full_name a))).
-    { destruct (has_end_anchor p1) eqn:Ed; injection Hp as <-; unfold pattern_matches; cbn [p_re].
-      - change (textual_concat [[Bol]; [rw]; [slash]; [ra]]) with (Seq Bol (Seq rw (Seq slash ra))).
-        rewrite search_spec. apply anchored_parts_own_dollar. apply Hd; [reflexivity | exact E1].
-      - change (textual_concat [[Bol]; [rw]; [slash]; [ra]; [Eol]]) with (Seq Bol (Seq rw (Seq slash (Seq ra Eol)))).
-        rewrite search_spec. apply anchored_parts_full. }
-    rewrite Hm. split.
-    - intro H. exists p0, p1, rw, ra. auto.
-    - intros (q0 & q1 & rw' & ra' & Hq & F0 & F1 & H). rewrite Hparts in Hq. injection Hq as <- <-.
+    destruct (Hs _ _ Hparts) as (H0 & H1). injection Hp as <-.
+    unfold pattern_matches; cbn [p_re].
+    rewrite (group_alts _ _ H0 E0), (group_alts _ _ H1 E1).
+    change (textual_concat [[Bol]; [alts ws]; [slash]; [alts accs]; [Eol]])
+      with (Seq Bol (Seq (alts ws) (Seq slash (Seq (alts accs) Eol)))).
+    rewrite search_spec, anchored_parts_full. split.
+    - intro H. exists p0, p1, ws, accs. auto.
+    - intros (q0 & q1 & ws' & accs' & Hq & F0 & F1 & H). rewrite Hparts in Hq. injection Hq as <- <-.
       rewrite E0 in F0. rewrite E1 in F1. injection F0 as <-. injection F1 as <-. exact H.
   Qed.
 
   Lemma wallet_pattern_total : forall path a, wallet_covers path a -> exists p, wallet_pattern parse path = Some p.
   Proof.
-    intros path a (p0 & p1 & rw & ra & Hparts & E0 & E1 & _). unfold wallet_pattern.
-    rewrite Hparts, E0, E1. destruct (has_end_anchor p1); eauto.
+    intros path a (p0 & p1 & ws & accs & Hparts & E0 & E1 & _). unfold wallet_pattern.
+    rewrite Hparts, E0, E1. eauto.
   Qed.
 
   Lemma wallet_admits_spec : forall paths a,
-    (forall path, In path paths -> wallet_simple path) ->
+    (forall path, In path paths -> wallet_sound path) ->
     (wallet_admits (wallet_patterns parse paths) a = true <->
      a_locked a = false /\ exists path, In path paths /\ wallet_covers path a).
   Proof.
@@ -319,7 +347,7 @@ Section Match.
 
   (* an account is used only if it was offered and a specifier covers its whole name *)
   Lemma dirk_admitted_full_match : forall cfg offered id,
-    c_mgr cfg = Dirk -> (forall path, In path (c_paths cfg) -> dirk_simple path) ->
+    c_mgr cfg = Dirk -> (forall path, In path (c_paths cfg) -> dirk_sound path) ->
     (In id (admitted parse cfg offered) <->
      exists a, In a (c_universe cfg) /\ a_id a = id /\ In id offered /\
                In (a_wallet a) (wallet_names cfg) /\
@@ -335,7 +363,7 @@ Section Match.
   Qed.
 
   Lemma wallet_admitted_full_match : forall cfg offered id,
-    c_mgr cfg = Wallet -> (forall path, In path (c_paths cfg) -> wallet_simple path) ->
+    c_mgr cfg = Wallet -> (forall path, In path (c_paths cfg) -> wallet_sound path) ->
     (In id (admitted parse cfg offered) <->
      exists a, In a (c_universe cfg) /\ a_id a = id /\ In id offered /\
                In (a_wallet a) (wallet_names cfg) /\
@@ -348,31 +376,37 @@ Section Match.
 End Match.
 
 (* ---------------------------------------------------------------------------------------------
-   Top-level alternation escapes the anchors. *)
+   Why the parts are grouped: spliced as plain text, a top-level alternation escapes the anchors
+   (the defect repaired in the repository by "fix: group the alternatives of an account specifier
+   part"). *)
 Open Scope string_scope.
 Definition oracle_ab (t : string) : option (list re) :=
   if String.eqb t "W" then Some [lit "W"]
   else if String.eqb t "a|b" then Some [Chr 97; Chr 98]
   else None.
-Definition acct_W_ax : account := {| a_id := 1; a_wallet := "W"; a_name := "ax"; a_locked := false |}.
-Definition acct_W_xb : account := {| a_id := 2; a_wallet := "W"; a_name := "xb"; a_locked := false |}.
+Definition acct_W (n : string) (id : N) : account := {| a_id := id; a_wallet := "W"; a_name := n; a_locked := false |}.
 Close Scope string_scope.
 
 (* what the specifier W/a|b says: wallet W, account a or b *)
 Definition spec_W_a_or_b : re := Seq (lit "W") (Seq slash (Alt (Chr 97) (Chr 98))).
+(* ^W/a|b$ as the ungrouped text reads *)
+Definition ungrouped_W_a_or_b : re := textual_concat [[Bol]; [lit "W"]; [slash]; [Chr 97; Chr 98]; [Eol]].
 
-Lemma alternation_escapes_dirk :
-  dirk_admits (dirk_patterns oracle_ab ["W/a|b"%string]) acct_W_ax = true /\
-  dirk_admits (dirk_patterns oracle_ab ["W/a|b"%string]) acct_W_xb = true /\
-  ~ full_lang spec_W_a_or_b (codes (full_name acct_W_ax)) /\
-  ~ full_lang spec_W_a_or_b (codes (full_name acct_W_xb)).
+Lemma ungrouped_alternation_escapes :
+  search ungrouped_W_a_or_b (codes "W/ax") = true /\
+  search ungrouped_W_a_or_b (codes "zzxb") = true /\
+  ~ full_lang spec_W_a_or_b (codes "W/ax") /\
+  ~ full_lang spec_W_a_or_b (codes "zzxb").
 Proof.
   repeat split; try (vm_compute; reflexivity).
   - intro H. apply full_match_spec in H. vm_compute in H. discriminate.
   - intro H. apply full_match_spec in H. vm_compute in H. discriminate.
 Qed.
 
-Lemma alternation_escapes_wallet :
-  wallet_admits (wallet_patterns oracle_ab ["W/a|b"%string]) acct_W_ax = true /\
-  wallet_admits (wallet_patterns oracle_ab ["W/a|b"%string]) acct_W_xb = true.
+(* the managers as they are now *)
+Lemma grouped_alternation_example :
+  map (fun n => dirk_admits (dirk_patterns oracle_ab ["W/a|b"%string]) (acct_W n 1))
+      ["a"; "b"; "ax"; "xb"; "c"]%string = [true; true; false; false; false] /\
+  map (fun n => wallet_admits (wallet_patterns oracle_ab ["W/a|b"%string]) (acct_W n 1))
+      ["a"; "b"; "ax"; "xb"; "c"]%string = [true; true; false; false; false].
 Proof. split; vm_compute; reflexivity. Qed.
